@@ -50,6 +50,13 @@ type Contract struct {
 	OnUse       func(fr *Frame, callee *ssa.Function, args []Val, res Val, pre *State)
 }
 
+// RGSpec: rely/guarantee discipline of one shared cell updated with sync/atomic (DESIGN 4.10)
+type RGSpec struct {
+	Name      string
+	Guarantee Clause // over old, new: every atomic update made by any thread satisfies it
+	Rely      Clause // over old, new: what other threads may have done between two of this thread's steps
+}
+
 type PredDef struct {
 	Name    string
 	Params  []string
@@ -251,6 +258,38 @@ func (e *Engine) loadContractFile(path string) error {
 			e.SpecFns[sf.Name] = sf
 		case "axiom":
 			e.Axioms = append(e.Axioms, rest)
+		case "rg":
+			// rg T.f guarantee <expr over old,new> rely <expr over old,new>
+			m := regexp.MustCompile(`^(\S+)\s+guarantee\s+(.*?)\s+rely\s+(.*)$`).FindStringSubmatch(rest)
+			if m == nil {
+				return fmt.Errorf("bad rg: %s", l)
+			}
+			i := strings.LastIndex(m[1], ".")
+			t, err := e.resolveType(pkgPath, m[1][:i])
+			if err != nil {
+				return err
+			}
+			fam := ""
+			for _, lf := range layoutOf(t).leaves {
+				if lf.Path == m[1][i+1:] {
+					fam = lf.Arr
+				}
+			}
+			if fam == "" {
+				return fmt.Errorf("rg: no field %s", m[1])
+			}
+			g, err := parseClause(m[2])
+			if err != nil {
+				return err
+			}
+			r, err := parseClause(m[3])
+			if err != nil {
+				return err
+			}
+			if e.RG == nil {
+				e.RG = map[string]*RGSpec{}
+			}
+			e.RG[fam] = &RGSpec{Name: m[1], Guarantee: g, Rely: r}
 		case "specrec":
 			// specrec name(a Sort, b Sort) Sort = <smt body>   (define-fun-rec sf_name)
 			m := regexp.MustCompile(`^(\w+)\((.*?)\)\s*(\S+)\s*=\s*(.*)$`).FindStringSubmatch(rest)
